@@ -192,10 +192,19 @@ def showOut : Out → String
   | .done => "ok"
   | .failed f => f.toString
 
+/-- an address field: alias, optionally followed by `U` = the all-upper-case bech32 spelling of the same bytes.
+    Returns (alias, spelling) with spelling 0 = canonical. -/
+def parseSpelled (s : String) : Option (Nat × Nat) :=
+  if s.endsWith "U" then (s.dropEnd 1).toString.toNat?.map (fun n => (n, 1)) else s.toNat?.map (fun n => (n, 0))
+
+/-- account / validator fields the code decodes (`AccAddressFromBech32`, `ValAddressFromBech32`) before it uses them:
+    the spelling plays no role -/
+def parseAcct (s : String) : Option Nat := (parseSpelled s).map (·.1)
+
 def parsePeg (t : List String) : Option PegMsg :=
   match t with
   | [s, ch, r, a, sym, c] => do
-    let s ← s.toNat?
+    let s ← parseAcct s
     let ch ← ch.toInt?
     let a ← a.toInt?
     let c ← c.toInt?
@@ -205,20 +214,20 @@ def parsePeg (t : List String) : Option PegMsg :=
 def parseMsg (kind : String) (t : List String) : Option Msg :=
   match kind, t with
   | "claim", [v, ch, n, snd, r, a, sym, tok, ty] => do
-    let v ← v.toNat?
+    let (v, sp) ← parseSpelled v
     let ch ← ch.toInt?
     let n ← n.toInt?
-    let r ← r.toNat?
+    let r ← parseAcct r
     let a ← a.toInt?
     let ty ← ty.toNat?
-    pure (.claim ⟨v, ch, n, snd, r, a, sym, tok, ty⟩)
+    pure (.claim ⟨v, ch, n, snd, r, a, sym, tok, ty, sp⟩)
   | "lock", t => (parsePeg t).map .lock
   | "burn", t => (parsePeg t).map .burn
-  | "wl", [s, op, v] => do pure (.whitelist (← s.toNat?) op (← v.toNat?))
-  | "pause", [s, b] => do pure (.pause (← s.toNat?) (b == "1"))
-  | "bl", [s, l] => do pure (.blacklist (← s.toNat?) (listOf l ","))
-  | "recv", [s, a] => do pure (.cethReceiver (← s.toNat?) (← a.toNat?))
-  | "rescue", [s, a, n] => do pure (.rescue (← s.toNat?) (← a.toNat?) (← n.toInt?))
+  | "wl", [s, op, v] => do pure (.whitelist (← parseAcct s) op (← parseAcct v))
+  | "pause", [s, b] => do pure (.pause (← parseAcct s) (b == "1"))
+  | "bl", [s, l] => do pure (.blacklist (← parseAcct s) (listOf l ","))
+  | "recv", [s, a] => do pure (.cethReceiver (← parseAcct s) (← parseAcct a))
+  | "rescue", [s, a, n] => do pure (.rescue (← parseAcct s) (← parseAcct a) (← n.toInt?))
   | _, _ => none
 
 def msgDenoms : Msg → List String
